@@ -101,8 +101,33 @@ impl Ord for Key {
         self.k.cmp(&o.k)
     }
 }
+static mut EXP_FUSE: u8 = 255;
+static mut EXP_CALLS: usize = 0;
+static mut EXP_FIRED: bool = false;
+
 impl ExpiredKey<u8> for Key {
     fn expiration(&self) -> u8 {
+        unsafe {
+            if EXP_FUSE == 0 && !LIST_PTR.is_null() {
+                // C18, panic of the expiration accessor inside clear_expired's Vec::retain: std's retain guard restores the
+                // already kept prefix followed by every not yet processed entry (this one included).  The cached earliest
+                // expiration the caller is left with must still be a lower bound for all of them.
+                let min_exp = (*LIST_PTR).verif_min_exp();
+                let k = EXP_CALLS; // entries PRE[k..] are unprocessed
+                let mut j = 0;
+                while j < PRE.1 {
+                    if j >= k || PRE.0[j].1 > NOW {
+                        assert!(min_exp <= PRE.0[j].1);
+                    }
+                    j += 1;
+                }
+                EXP_FIRED = true;
+            }
+            if EXP_FUSE != 255 && EXP_FUSE > 0 {
+                EXP_FUSE -= 1;
+            }
+            EXP_CALLS += 1;
+        }
         self.x
     }
 }
@@ -537,5 +562,38 @@ fn c18_keylist_callback_state() {
     }
     kani::cover!(unsafe { FUSE_FIRED });
     unsafe { FUSE = 255; }
+    std::mem::forget(l);
+}
+
+/// C18 (list): the expiration accessor panics during the purge (inside Vec::retain): the cached earliest expiration left behind
+/// is still a lower bound of everything the retain guard keeps.
+#[kani::proof]
+#[kani::unwind(6)]
+fn c18_keylist_purge_panic_keeps_cache_valid() {
+    let (e, n) = any_entries();
+    let mut l = key_list(&e, n);
+    let t: u8 = kani::any();
+    let f: u8 = kani::any();
+    kani::assume(f < 3);
+    unsafe {
+        NOW = t;
+        WATCH = false;
+        PRE = (e, n);
+        LIST_PTR = &l as *const _;
+        EXP_CALLS = 0;
+        EXP_FUSE = f;
+    }
+    // only the purge itself: get_value's first action; the insert path calls expiration() once more before the purge
+    if kani::any() {
+        l.get_value(t, Key { k: kani::any(), x: kani::any() });
+    } else {
+        let out = l.into_ordered_vec(t);
+        std::mem::forget(out);
+        kani::cover!(unsafe { EXP_FIRED });
+        unsafe { EXP_FUSE = 255; }
+        return;
+    }
+    kani::cover!(unsafe { EXP_FIRED });
+    unsafe { EXP_FUSE = 255; }
     std::mem::forget(l);
 }
